@@ -627,6 +627,102 @@ fn main() {
             }
             0
         }
+        Some("calibrate") if args.len() >= 3 => {
+            // calibrate <n> <outdir>: write n generated G-exec programs with the reference
+            // interpreter's results, for comparison with another engine (tools/calibrate.js, V8)
+            use vharness::gen::{gen_module, GenCfg, Kind, Profile};
+            use vharness::interp::{self, Machine, Stop, Val};
+            let n: u64 = args[1].parse().unwrap_or(100);
+            let _ = std::fs::create_dir_all(&args[2]);
+            let mut written = 0;
+            for seed in 1..=n {
+                let mut x = seed.wrapping_mul(0x9E3779B97F4A7C15) | 1;
+                let tape: Vec<u8> = (0..4096).map(|_| { x ^= x << 13; x ^= x >> 7; x ^= x << 17; (x >> 24) as u8 }).collect();
+                let mut t = vharness::tape::Tape::new(&tape);
+                let mut profile = Profile::from_tape(&mut t);
+                profile.multivalue = true;
+                profile.tail = true;
+                profile.bulk = true;
+                profile.exn = t.bool();
+                // not available in the reference engine used for calibration (node 20)
+                profile.multimem = false;
+                profile.funcrefs = false;
+                profile.mem64 = false;
+                let mut cfg = GenCfg::new(Kind::Exec, profile);
+                cfg.max_funcs = 4;
+                cfg.max_stmts = 5;
+                cfg.max_depth = 4;
+                cfg.names = false;
+                cfg.customs = false;
+                let gm = gen_module(&mut t, &cfg);
+                let bytes = gm.encode();
+                if vharness::dec::module::validate(&bytes).is_err() {
+                    continue;
+                }
+                let Ok(prog) = interp::load(&bytes) else { continue };
+                let Ok(mut m) = Machine::instantiate(&prog, None, 200_000) else { continue };
+                let mut calls = vec![];
+                let mut skip = false;
+                for (name, f) in prog.exports.iter().take(4) {
+                    let (params, _) = &prog.types[prog.func_types[*f as usize] as usize];
+                    for _ in 0..2 {
+                        let args: Vec<Val> = params
+                            .iter()
+                            .map(|p| match p {
+                                wasmparser::ValType::I32 => Val::I32(t.i32v()),
+                                wasmparser::ValType::I64 => Val::I64(t.i64v()),
+                                // signalling NaNs are quietened when they pass through JS numbers
+                                wasmparser::ValType::F32 => {
+                                    let b = t.f32bits();
+                                    Val::F32(if f32::from_bits(b).is_nan() { b | 0x0040_0000 } else { b })
+                                }
+                                wasmparser::ValType::F64 => {
+                                    let b = t.f64bits();
+                                    Val::F64(if f64::from_bits(b).is_nan() { b | 0x0008_0000_0000_0000 } else { b })
+                                }
+                                _ => Val::Ref(None),
+                            })
+                            .collect();
+                        m.log.clear();
+                        let r = m.call(*f, args.clone());
+                        let show = |v: &Val| match v {
+                            Val::I32(x) => json!({"t":"i32","v":x.to_string()}),
+                            Val::I64(x) => json!({"t":"i64","v":x.to_string()}),
+                            Val::F32(b) => json!({"t":"f32","v":b.to_string()}),
+                            Val::F64(b) => json!({"t":"f64","v":b.to_string()}),
+                            Val::Ref(_) => json!({"t":"ref","v":"null"}),
+                        };
+                        let out = match &r {
+                            Ok(vs) => json!({"ok": vs.iter().map(show).collect::<Vec<_>>()}),
+                            Err(Stop::Trap(msg)) => json!({"trap": msg}),
+                            Err(Stop::Exception(_)) => json!({"exception": true}),
+                            Err(_) => {
+                                skip = true;
+                                json!(null)
+                            }
+                        };
+                        calls.push(json!({"name": name, "args": args.iter().map(show).collect::<Vec<_>>(), "expect": out, "log": m.log.clone()}));
+                    }
+                }
+                if skip {
+                    continue;
+                }
+                let globals: Vec<Value> = prog.globals.iter().filter_map(|(ty, _mutable, init)| match init {
+                    interp::GInit::Import(k) => Some(json!({"k": k, "ty": format!("{:?}", ty)})),
+                    _ => None,
+                }).collect();
+                let _ = std::fs::write(format!("{}/case{:05}.wasm", args[2], seed), &bytes);
+                let _ = std::fs::write(format!("{}/case{:05}.json", args[2], seed), serde_json::to_string(&json!({"calls": calls, "imported_globals": globals})).unwrap());
+                written += 1;
+            }
+            println!("{} cases written", written);
+            0
+        }
+        Some("print") if args.len() >= 2 => {
+            let b = std::fs::read(&args[1]).unwrap_or_default();
+            println!("{}", vharness::dec::module::print_wat(&b));
+            0
+        }
         Some("corpus-dump") if args.len() >= 2 => {
             // corpus-dump <dir>: write the extracted test inputs as files (fuzzing seeds)
             let _ = std::fs::create_dir_all(&args[1]);
